@@ -44,11 +44,11 @@ def run(ck):
     fn = inline_forall_helpers(m.func("match_expr"), dict((q, f) for q, f in m.funcs.items() if "." not in q and q != "match_expr"))
     ts = m.func("test_set")
     ck.rule("R1", "each node-kind branch checks pattern kind, compares non-recursed identity fields, recurses into "
-                  "every child and propagates sub-match failure", floor=20)
+                  "every child and propagates sub-match failure", floor=15)
     ck.rule("R2", "test_set refuses a joker bound to a different expression before binding it", floor=1)
-    ck.rule("R3", "permutation loop: copy of bindings per permutation, used by sub-matches, committed only on success", floor=3)
+    ck.rule("R3", "permutation loop: copy of bindings per permutation, used by sub-matches, committed only on success", floor=1)
     ck.rule("R4", "permutations only under is_commutative(); commutative list holds only commutative operators", floor=2)
-    ck.rule("R5", "leaves and non-joker patterns are compared by equality; joker test comes first", floor=4)
+    ck.rule("R5", "leaves and non-joker patterns are compared by equality; joker test comes first", floor=2)
 
     E, P = fn.args.args[0].arg, fn.args.args[1].arg
     RES = fn.args.args[3].arg
